@@ -38,6 +38,7 @@ type RunCfg struct {
 	Reach       []string       `json:"reach"`       // markers that must be reached
 	ExpectViol  []string       `json:"expect_viol"` // labels (prefix) that must be violated (twins)
 	Sequential  bool           `json:"sequential"`  // eligible for native replay
+	DiffOnly    bool           `json:"diff_only"`   // translator-validation corpus: no symbolic exploration, concrete differential runs only
 	Notes       string         `json:"notes"`
 	ConcMax     int            `json:"conc_max"` // max values when concretizing
 	Lazy        bool           `json:"lazy"`
